@@ -133,7 +133,7 @@ class StoreCollector:
 
     def __init__(self, fn: ast.FunctionDef, file: str, loop_atom: str = "ROW",
                  keep_atoms: Tuple[str, ...] = (), strict: bool = True, loop_atoms_by_name: bool = False,
-                 track_cells: bool = True):
+                 track_cells: bool = True, array_params=None, keep_arrays: bool = False):
         self.fn = fn
         self.file = file
         self.loop_atom = loop_atom
@@ -141,6 +141,12 @@ class StoreCollector:
         self.strict = strict
         self.by_name = loop_atoms_by_name
         self.track_cells = track_cells
+        # array-valued names are mutable objects: they are never copy-propagated (their definitions are recorded instead)
+        self.arrays = set()
+        if keep_arrays:
+            from .arrays import array_names, infer_array_params
+            ap = set(array_params) if array_params is not None else infer_array_params(fn)
+            self.arrays, _ = array_names(fn, ap)
         self.env: Dict[str, Rat] = {}
         self.cells: Dict[str, Rat] = {}
         self.stores: List[Store] = []
@@ -386,7 +392,7 @@ class StoreCollector:
             if name in self.keep:
                 self.env.pop(name, None)
                 return
-            if (self._is_alloc(value) or name in self.mutated) and not aug:
+            if (self._is_alloc(value) or name in self.mutated or name in self.arrays) and not aug:
                 self.allocs[name] = value
                 self.alloc_stmts[name] = st
                 self.env.pop(name, None)
